@@ -169,9 +169,10 @@ fn group_by_flattened<const N: usize>() {
 fn c40_group_by_filtered() {
     group_by_filtered::<3>();
 }
+/// EXPERIMENT (not part of the check): 5 items do not finish within 25 minutes.
 #[kani::proof]
 #[kani::unwind(8)]
-fn c40_group_by_filtered_deep() {
+fn c40_group_by_filtered_n5_exp() {
     group_by_filtered::<5>();
 }
 fn group_by_filtered<const N: usize>() {
